@@ -538,3 +538,8 @@ MUTANTS = [
 
 def run(ctx):
     ctx.search("events", cases(), quick=1200, thorough=4500)
+    if not ctx.quick() and ctx.shard == 0:
+        from vlib import fuzzrun
+        fuzzrun.run_atheris(ctx, "c01_atheris.py", "events", 60000,
+                            "txtorcon.torcontrolprotocol + txtorcon.spaghetti (event dispatch, listener fan-out)",
+                            max_len=600, script_args=["c02"])
